@@ -7,7 +7,8 @@
                        root is written after the last push from self.receipts.root(); `revert` handed to
                        finalize_outputs is `state is Revert`.
   COV-receipts         ReceiptsCtx::push appends the same receipt to the list and (its canonical bytes) to
-                       the Merkle tree, after the full / reserved-slot tests; the only other writers are
+                       the Merkle tree, after the full / reserved-slot tests (len == MAX-1 accepts only
+                       ScriptResult, len == MAX-2 only ScriptResult | Panic); the only other writers are
                        clear, the ReceiptsCtxMut guard (whose Drop recomputes the root) and the consuming
                        From impl.
   SHAPE-outputs        update_outputs: variable outputs are zeroed and change outputs read
@@ -15,6 +16,10 @@
                        the base asset adds the refund in both cases.
   SIB-client-commit    MemoryClient::transact reverts on should_revert()/error and commits otherwise; every
                        other MemoryClient entry point that executes a transaction commits on success.
+  TAB-storage-layers   MemoryStorage keeps three layers (memory = working, transacted = committed, persisted): commit
+                       copies memory -> transacted; revert copies transacted -> memory (undoes only the failed
+                       transaction); rollback copies persisted -> memory and transacted; persist copies transacted ->
+                       memory and persisted.
 Not decided: output values, the Merkle root value.
 """
 import re
@@ -85,6 +90,23 @@ def _follow_flag(pf, tg):
         if val == v:
             return nxt
     return j["t"][3]
+
+
+def storage_layers(T, rep):
+    rep.rule("TAB-storage-layers", "MemoryStorage: commit memory->transacted; revert transacted->memory; rollback persisted->{memory,transacted}; persist transacted->{memory,persisted}")
+    want = {"commit": {"transacted": "memory"}, "revert": {"memory": "transacted"}, "rollback": {"memory": "persisted", "transacted": "persisted"},
+            "persist": {"memory": "transacted", "persisted": "transacted"}}
+    for m, w in want.items():
+        n, f = T.find(r"^fuel_vm::storage::memory::MemoryStorage::%s$" % m, ["fuel_vm"], one=True)
+        rep.saw(n)
+        got = {}
+        for i, j, p, rv, line in assignments(f):
+            if p[0] == 1 and len(p) >= 2 and isinstance(p[-1], list) and p[-1][0] == "f" and p[-1][2] in ("memory", "transacted", "persisted") and rv[0] == "use":
+                d = describe(f, rv[1], depth=8)
+                mm = re.match(r"^(?:call:clone\()?arg:self\.(\w+)\)?$", d)
+                got[p[-1][2]] = mm.group(1) if mm else d
+        rep.check(got == w, "TAB-storage-layers", "MemoryStorage::%s" % m, "%s:%s" % (f["file"], f["line"]),
+                  "%s must copy %s; it copies %s" % (m, ", ".join("%s -> %s" % (b, a) for a, b in w.items()), ", ".join("%s -> %s" % (b, a) for a, b in got.items())))
 
 
 def run(F, rep, tier, allfacts):
@@ -250,6 +272,7 @@ def run(F, rep, tier, allfacts):
 
     # ------------------------------------------------------------ MemoryClient
     F = allfacts["T"]
+    storage_layers(F, rep)
     tn, tf = F.find(r"^fuel_vm::memory_client::MemoryClient::<M, Ecal, V>::transact$", ["fuel_vm"], one=True)
     rep.saw(tn)
     cfg = CFG(tf)
